@@ -301,53 +301,60 @@ Fixpoint char_params (args : list str) (len kind : option str) : res (option str
 
 Definition one_of (x : str) (l : list str) : bool := sin x l.
 
+(* the last part of parse_type: [args] is the text of the kind selector without white space,
+   [star] says that it was written after "*" *)
+Definition finish_type (vartype rest : str) (star : bool) (args : str) : res ptype :=
+  if one_of vartype [s "type"; s "class"; s "procedure"] then
+    match proto_re args with
+    | Some p => Ok (mkpt vartype rest None None (Some p))
+    | None => value_error
+    end
+  else if seqb vartype (s "character") then
+    if star then Ok (mkpt vartype rest None (Some args) None)
+    else
+      let parts := split_on c_comma args in
+      if 2 <? length parts then value_error
+      else
+        do lk <- char_params parts None None;
+        Ok (mkpt vartype rest (snd lk)
+                 (Some (match fst lk with Some l => l | None => s "1" end)) None)
+  else
+    Ok (mkpt vartype rest (Some (match kind_re args with Some k => k | None => args end)) None None).
+
+(* (star, args) from the match of VARKIND_RE *)
+Definition kind_args (vk : varkind) : bool * str :=
+  match vk with
+  | VKParen inner => (false, remove_ws (strip inner))
+  | VKStar a =>
+    let a := strip a in
+    (true, remove_ws (if prefix [c_lpar] a then strip (removelast (tl a)) else a))
+  | VKNone => (false, [])
+  end.
+
+(* parse_type after the type word: [after] is the text that follows it *)
+Definition after_type (vartype after : str) : res ptype :=
+  let rest := strip after in
+  match get_parens rest with
+  | None => Err (s "RuntimeError")
+  | Some kindstr =>
+    let rest := strip (skipn (length kindstr) rest) in
+    if (length kindstr <? 3) && negb (one_of vartype [s "type"; s "class"; s "character"])
+       && negb (prefix [c_star] kindstr)
+    then Ok (mkpt vartype rest None None None)
+    else
+      match varkind_search kindstr with
+      | VKNone =>
+        if seqb vartype (s "character") then Ok (mkpt vartype rest None (Some (s "1")) None)
+        else value_error
+      | VKParen [] => Err (s "AttributeError")          (* "()": group(2) is None *)
+      | vk => let (star, args) := kind_args vk in finish_type vartype rest star args
+      end
+  end.
+
 Definition parse_type (line : str) : res ptype :=
   match match_vartype line with
   | None => value_error
-  | Some (m, after) =>
-    let vartype := normalise_double (lower m) in
-    let rest := strip after in
-    match get_parens rest with
-    | None => Err (s "RuntimeError")
-    | Some kindstr =>
-      let rest := strip (skipn (length kindstr) rest) in
-      if (length kindstr <? 3) && negb (one_of vartype [s "type"; s "class"; s "character"])
-         && negb (prefix [c_star] kindstr)
-      then Ok (mkpt vartype rest None None None)
-      else
-        match varkind_search kindstr with
-        | VKNone =>
-          if seqb vartype (s "character") then Ok (mkpt vartype rest None (Some (s "1")) None)
-          else value_error
-        | VKParen [] => Err (s "AttributeError")          (* "()": group(2) is None *)
-        | vk =>
-          let (star, args) :=
-            match vk with
-            | VKParen inner => (false, strip inner)
-            | VKStar a =>
-              let a := strip a in
-              (true, if prefix [c_lpar] a then strip (removelast (tl a)) else a)
-            | VKNone => (false, [])
-            end in
-          let args := remove_ws args in
-          if one_of vartype [s "type"; s "class"; s "procedure"] then
-            match proto_re args with
-            | Some p => Ok (mkpt vartype rest None None (Some p))
-            | None => value_error
-            end
-          else if seqb vartype (s "character") then
-            if star then Ok (mkpt vartype rest None (Some args) None)
-            else
-              let parts := split_on c_comma args in
-              if 2 <? length parts then value_error
-              else
-                do lk <- char_params parts None None;
-                Ok (mkpt vartype rest (snd lk)
-                         (Some (match fst lk with Some l => l | None => s "1" end)) None)
-          else
-            Ok (mkpt vartype rest (Some (match kind_re args with Some k => k | None => args end)) None None)
-        end
-    end
+  | Some (m, after) => after_type (normalise_double (lower m)) after
   end.
 
 (* ------------------------------------------------------------------ line_to_variables *)
